@@ -34,6 +34,10 @@ theorem group_rel {cfg : Cfg} {cm v np : Nat} {bs : Bytes} {kp : KeyPos} {ci : C
       simp only [hl] at h1
       rw [rdLong_rdInt hl] at h2
       simp only at h2
+      cases hfit : countFits n64 s1 with
+      | false => simp [hfit] at h1
+      | true =>
+      simp only [hfit, Bool.not_true, Bool.false_eq_true, if_false] at h1
       cases hb1 : rdCellSection cfg cm v np ci N n64 s1 with
       | error e => simp [hb1] at h1
       | ok qb1 =>
